@@ -119,6 +119,8 @@ pub struct Case {
     pub id: String,
     pub lim: usize,
     pub tls: bool,
+    /// `dinit=1`: use the shim type that does not override `on_init`
+    pub dinit: bool,
     pub auth: Option<u64>,
     pub reads: Vec<RTok>,
     pub fault: Fault,
@@ -426,6 +428,7 @@ pub fn parse_case(lines: &[&str]) -> Result<Case, (usize, String)> {
         id: id.to_string(),
         lim: 16_777_215,
         tls: false,
+        dinit: false,
         auth: None,
         reads: Vec::new(),
         fault: Fault::None,
@@ -494,6 +497,13 @@ pub fn parse_case(lines: &[&str]) -> Result<Case, (usize, String)> {
                                 "0" => false,
                                 "1" => true,
                                 _ => return Err(e("tls must be 0 or 1".into())),
+                            }
+                        }
+                        "dinit" => {
+                            c.dinit = match v {
+                                "0" => false,
+                                "1" => true,
+                                _ => return Err(e("dinit must be 0 or 1".into())),
                             }
                         }
                         "auth" => {
@@ -867,7 +877,8 @@ fn run_qprog<'a>(w: QueryResultWriter<'a, Transport>, ops: &'a [Op]) -> io::Resu
     }
 }
 
-pub struct Shim {
+/// The script interpreter shared by the two shim types.
+pub struct Inner {
     case: Arc<Case>,
     qi: usize,
     pi: usize,
@@ -932,10 +943,7 @@ fn log_param(coltype: ColumnType, inner: &ValueInner<'_>) {
     if let ValueInner::Double(d) = inner {
         aux(Aux::F64(d.to_bits()));
         if coltype == ColumnType::MYSQL_TYPE_FLOAT {
-            let f = *d as f32;
-            if f64::from(f).to_bits() == d.to_bits() {
-                aux(Aux::F32(f.to_bits()));
-            }
+            aux(Aux::float_param(*d));
         }
     }
 }
@@ -977,6 +985,9 @@ fn do_conv(conv: Conv, v: msql_srv::Value<'_>) {
         }
         Conv::F32 => {
             let x: f32 = v.into();
+            if let ValueInner::Double(d) = v.into_inner() {
+                aux(Aux::Trunc(d.to_bits()));
+            }
             aux(Aux::F32(x.to_bits()));
             format!("{:08x}", x.to_bits())
         }
@@ -1021,9 +1032,7 @@ fn do_conv(conv: Conv, v: msql_srv::Value<'_>) {
     });
 }
 
-impl MysqlShim<Transport> for Shim {
-    type Error = ShimError;
-
+impl Inner {
     fn on_prepare(
         &mut self,
         query: &str,
@@ -1166,6 +1175,70 @@ impl MysqlShim<Transport> for Shim {
     }
 }
 
+/// The normal shim: every callback is scripted.
+pub struct Shim(Inner);
+
+/// `dinit=1`: identical, but `on_init` is NOT overridden (the trait's default runs).
+pub struct ShimDefaultInit(Inner);
+
+macro_rules! shim_common {
+    () => {
+        type Error = ShimError;
+
+        fn on_prepare(
+            &mut self,
+            query: &str,
+            info: StatementMetaWriter<'_, Transport>,
+        ) -> Result<(), ShimError> {
+            self.0.on_prepare(query, info)
+        }
+
+        fn on_execute(
+            &mut self,
+            id: u32,
+            params: ParamParser<'_>,
+            results: QueryResultWriter<'_, Transport>,
+        ) -> Result<(), ShimError> {
+            self.0.on_execute(id, params, results)
+        }
+
+        fn on_close(&mut self, stmt: u32) {
+            self.0.on_close(stmt)
+        }
+
+        fn on_query(
+            &mut self,
+            query: &str,
+            results: QueryResultWriter<'_, Transport>,
+        ) -> Result<(), ShimError> {
+            self.0.on_query(query, results)
+        }
+
+        fn tls_config(&self) -> Option<Arc<rustls::ServerConfig>> {
+            self.0.tls_config()
+        }
+
+        fn after_authentication(
+            &mut self,
+            ctx: &AuthenticationContext<'_>,
+        ) -> Result<(), ShimError> {
+            self.0.after_authentication(ctx)
+        }
+    };
+}
+
+impl MysqlShim<Transport> for Shim {
+    shim_common!();
+
+    fn on_init(&mut self, schema: &str, w: InitWriter<'_, Transport>) -> Result<(), ShimError> {
+        self.0.on_init(schema, w)
+    }
+}
+
+impl MysqlShim<Transport> for ShimDefaultInit {
+    shim_common!();
+}
+
 // ---------------------------------------------------------------------------------------------
 // Running one case
 
@@ -1195,14 +1268,20 @@ pub fn run_case(case: Case) -> (String, Vec<Aux>) {
         let _ = tls_config();
     }
     let case = Arc::new(case);
-    let shim = Shim {
+    let inner = Inner {
         case: case.clone(),
         qi: 0,
         pi: 0,
         xi: 0,
         ii: 0,
     };
-    let r = panics::caught(move || MysqlIntermediary::run_on(shim, Transport));
+    let r = if case.dinit {
+        let shim = ShimDefaultInit(inner);
+        panics::caught(move || MysqlIntermediary::run_on(shim, Transport))
+    } else {
+        let shim = Shim(inner);
+        panics::caught(move || MysqlIntermediary::run_on(shim, Transport))
+    };
     let result = match r {
         Ok(Ok(())) => "ok".to_string(),
         Ok(Err(e)) => format!("err {}", shim_kind(&e)),
